@@ -96,7 +96,7 @@ func cmdFn(args []string) {
 			continue
 		}
 		res := verifyFunction(P, fn, nil)
-				dischargeAll(res.Obls, dir, *timeout, false, runtime.NumCPU())
+		dischargeAll(res.Obls, dir, *timeout, false, runtime.NumCPU())
 		printResult(res, *verbose)
 	}
 	fmt.Printf("total %.1fs, solver %.1fs\n", time.Since(t0).Seconds(), float64(solverSeconds)/1000)
